@@ -323,6 +323,30 @@ Proof.
   destruct (N.eqb b 0); [discriminate|]. rewrite IH by exact Hm. reflexivity.
 Qed.
 
+(* is_result_valid: every stored value - of any length, the empty one included - is shown to the client unchanged and the
+   client's answer is the engine's answer *)
+Lemma capi_valid_forwarded r client v : cr_has_valid r = true -> valid_thunk r client v = client v.
+Proof. intros H. unfold valid_thunk. rewrite H, copy_n_out_vector. reflexivity. Qed.
+
+Lemma capi_valid_consulted_on_empty e ec key r :
+  cr_has_valid r = true ->
+  option_map view (backward e (BIsResultValid (wrap_rule ec key r) [])) = Some (VIsResultValid (cr_context r) ec (cr_context r) []).
+Proof. intros H. exact (backward_is_result_valid e ec key r [] H). Qed.
+
+Lemma valid_thunk_null_callback r client v : cr_has_valid r = false -> valid_thunk r client v = true.
+Proof. intros H. unfold valid_thunk. rewrite H. reflexivity. Qed.
+
+Lemma valid_thunk_skip_empty_refuted :
+  exists r client v, cr_has_valid r = true /\ valid_thunk_skip_empty r client v <> client v /\ valid_thunk r client v = client v.
+Proof.
+  exists (mkCRule 0 (data_of [] []) true true), (fun _ => true), []. split; [reflexivity|]. split; [|reflexivity].
+  cbn. discriminate.
+Qed.
+
+Lemma valid_thunk_skip_empty_agrees_nonempty r client b v :
+  valid_thunk_skip_empty r client (b :: v) = valid_thunk r client (b :: v).
+Proof. reflexivity. Qed.
+
 Lemma build_result_exact v : copy_n (build_result v) = v.
 Proof. apply copy_n_out_vector. Qed.
 
@@ -386,4 +410,7 @@ Proof. vm_compute. reflexivity. Qed.
 Example ex_cstr_agree : copy_cstr (data_of [97; 98] [0; 9]) = [97; 98].
 Proof. vm_compute. reflexivity. Qed.
 Example ex_valid_null_callback : cr_has_valid (mkCRule 0 (data_of [] []) false true) = false.
+Proof. reflexivity. Qed.
+Example ex_valid_empty_asked :
+  valid_thunk (mkCRule 0 (data_of [] []) true true) (fun v => match v with [] => true | _ => false end) [] = true.
 Proof. reflexivity. Qed.
